@@ -192,15 +192,51 @@ def match(t: Template | ast.AST, e: ast.AST, binds: dict[str, ast.AST] | None = 
     return b if _match(tree, e, b) else None
 
 
+WRAPPERS = ("__phi__", "__ctl__", "__inl__")
+
+
+def wrapper_kind(e: ast.AST) -> str | None:
+    if isinstance(e, ast.Call) and isinstance(e.func, ast.Name) and e.func.id in WRAPPERS and e.args:
+        return e.func.id
+    return None
+
+
+class _Primary(ast.NodeTransformer):
+    def visit_Call(self, node: ast.Call) -> ast.AST:
+        if wrapper_kind(node):
+            return self.visit(node.args[0])
+        return self.generic_visit(node)
+
+
+def primary(e: ast.AST) -> ast.AST:
+    """the expression with all dependency wrappers (__phi__/__ctl__/__inl__) replaced by their primary
+    (first) argument, i.e. the expression as written"""
+    if not any(wrapper_kind(n) for n in ast.walk(e)):
+        return e
+    return _Primary().visit(copy.deepcopy(e))
+
+
 def _match(t: ast.AST, e: ast.AST, b: dict[str, ast.AST]) -> bool:
     h = _hole_name(t)
     if h is not None:
         if h == "_":
             return True
         if h in b:
-            return _eq(strip_ctx(b[h]), strip_ctx(e))
+            return _eq(strip_ctx(primary(b[h])), strip_ctx(primary(e)))
         b[h] = e
         return True
+    wk = wrapper_kind(e)
+    if wk is not None and not (isinstance(t, ast.Call) and isinstance(t.func, ast.Name) and t.func.id == wk):
+        # wrappers are transparent: match the primary expression, or (phi / inl) one of the alternatives
+        assert isinstance(e, ast.Call)
+        cands = e.args if wk in ("__phi__", "__inl__") else e.args[:1]
+        for c in cands:
+            b2 = dict(b)
+            if _match(t, c, b2):
+                b.clear()
+                b.update(b2)
+                return True
+        return False
     if type(t) is not type(e):
         return False
     for fld in t._fields:
@@ -263,7 +299,41 @@ def any_match(ts: Iterable[Template | str], e: ast.AST, binds: dict[str, ast.AST
 
 
 def free_names(e: ast.AST) -> set[str]:
-    return {n.id for n in ast.walk(e) if isinstance(n, ast.Name)}
+    """names occurring free in `e` (comprehension targets and lambda parameters are bound)"""
+    out: set[str] = set()
+
+    def go(n: ast.AST, bound: frozenset[str]) -> None:
+        if isinstance(n, ast.Name):
+            if n.id not in bound:
+                out.add(n.id)
+            return
+        if isinstance(n, (ast.ListComp, ast.SetComp, ast.GeneratorExp, ast.DictComp)):
+            b = bound
+            for i, g in enumerate(n.generators):
+                go(g.iter, b if i else bound)
+                b = b | {x.id for x in ast.walk(g.target) if isinstance(x, ast.Name)}
+                for c in g.ifs:
+                    go(c, b)
+            if isinstance(n, ast.DictComp):
+                go(n.key, b)
+                go(n.value, b)
+            else:
+                go(n.elt, b)
+            return
+        if isinstance(n, ast.Lambda):
+            a = n.args
+            b = bound | {x.arg for x in (*a.posonlyargs, *a.args, *a.kwonlyargs)}
+            if a.vararg:
+                b = b | {a.vararg.arg}
+            if a.kwarg:
+                b = b | {a.kwarg.arg}
+            go(n.body, b)
+            return
+        for c in ast.iter_child_nodes(n):
+            go(c, bound)
+
+    go(e, frozenset())
+    return out
 
 
 def access_paths(e: ast.AST) -> set[str]:
